@@ -418,10 +418,15 @@ def bodyNodesL (pre : List Str) : List DItem → List Node
   | k :: ks => bodyNodes pre k ++ bodyNodesL pre ks
 end
 
+/-- element names of body controls (`control.tag` of the type table for the question types that render one) -/
+def controlTags : List Str :=
+  [l!"input", l!"select", l!"select1", l!"upload", l!"trigger", l!"range", l!"odk:rank", l!"group", l!"repeat"]
+
 mutual
-/-- no control attribute has the local name `ref` / `nodeset` (`setAttribute` would evict the control's reference) -/
+/-- the control tag is a control element name, and no control attribute has the local name `ref` / `nodeset` (`setAttribute` would evict the control's reference) -/
 def ctlOk : DItem → Bool
-  | .q _ p => p.attrs.all fun kv => Asm.attrLocal kv.1 != l!"ref" && Asm.attrLocal kv.1 != l!"nodeset"
+  | .q d p => (!d.control || controlTags.contains d.tag) &&
+    p.attrs.all fun kv => Asm.attrLocal kv.1 != l!"ref" && Asm.attrLocal kv.1 != l!"nodeset"
   | .sec _ _ _ p ks =>
     (p.attrs.all fun kv => Asm.attrLocal kv.1 != l!"ref" && Asm.attrLocal kv.1 != l!"nodeset") && ctlOkL ks
 def ctlOkL : List DItem → Bool
